@@ -5,7 +5,9 @@ import json, os
 ROOT = os.path.dirname(os.path.dirname(os.path.abspath(__file__)))
 CHECKS = {}
 NA = {}
-exec(open(os.path.join(ROOT, 'tools', 'manifest_table.py')).read())
+for _f in sorted(os.listdir(os.path.join(ROOT, 'tools', 'manifest.d'))):
+    if _f.endswith('.py'):
+        exec(open(os.path.join(ROOT, 'tools', 'manifest.d', _f)).read())
 
 checks = []
 for pid in sorted(CHECKS):
